@@ -1,5 +1,6 @@
 import LivesimVerif.Lemmas.Receiver
 import LivesimVerif.Lemmas.RecvInv
+import LivesimVerif.Lemmas.RecvShape
 import LivesimVerif.Model.Renum
 /-!
 # C17 — Ingest receiver: stored media and timeline MPD agree for any arrival order
@@ -381,6 +382,67 @@ example :
 
 example : expandS (buildS [⟨5, 100, 10, false⟩, ⟨6, 110, 10, false⟩, ⟨7, 121, 9, false⟩, ⟨8, 130, 10, false⟩]) 0
     = [(100, 10), (110, 10), (121, 9), (130, 10)] := by decide
+
+/-! ## Every operation of the generator, in any order -/
+
+/-- the operations the channel goroutine applies to the generator -/
+inductive GOp
+  | add (name : String) (it : Item)      -- `addSegmentData`
+  | drop (n : Nat)                       -- `dropSeqNr` (a non-consecutive first pair of the master track)
+  | start (w : Nat) (shifted : Bool)     -- `start` (resize; for a shifted channel `removeUnshifted` + `drop`s)
+
+/-- what the callers guarantee: sequence numbers are `uint32`, the window is positive -/
+def GOp.wf : GOp → Prop
+  | .add _ it => it.seqNr < U32
+  | .drop _ => True
+  | .start w _ => 0 < w ∧ w < U32
+
+/-- one operation; `none` = an index out of range, which would kill the channel goroutine -/
+def runOp (g : Gen) : GOp → Option Gen
+  | .add name it => match g.add name it with
+    | .ok g' _ => some g'
+    | .err g' => some g'
+    | .panic => none
+  | .drop n => g.dropSeqNr n
+  | .start w sh => g.start w sh
+
+def runOps (g : Gen) : List GOp → Option Gen
+  | [] => some g
+  | op :: rest => (runOp g op).bind (fun g' => runOps g' rest)
+
+theorem runOp_shape (g : Gen) (op : GOp) (hg : GShape g) (hop : op.wf) : ∃ g', runOp g op = some g' ∧ GShape g' := by
+  cases op with
+  | add name it =>
+    have h := gen_add_shape g name it hg hop
+    simp only [runOp]
+    cases hr : g.add name it with
+    | ok g' n => rw [hr] at h; exact ⟨g', rfl, h⟩
+    | err g' => rw [hr] at h; exact ⟨g', rfl, h⟩
+    | panic => rw [hr] at h; exact h.elim
+  | drop n => exact gen_drop_shape g n hg
+  | start w sh =>
+    obtain ⟨g', h1, h2, _⟩ := gen_start_shape g w sh hg hop.1 hop.2
+    exact ⟨g', h1, h2⟩
+
+/-- **No sequence of operations stops the receiver**: uploads of any track and number in any order, repairs of the
+first pair (`dropSeqNr`), starts with or without the shift to any window — interleaved arbitrarily, from a new
+generator — never index out of range, and the state stays well-formed (sizes, fill counters, distinct track names,
+strictly increasing buffers), so the next operation is safe again. -/
+theorem c17_any_ops_no_panic (w : Nat) (h0 : 0 < w) (hw : w < U32) (ops : List GOp) (hwf : ∀ op ∈ ops, op.wf) :
+    ∃ g', runOps (Gen.new w) ops = some g' ∧ GShape g' := by
+  suffices H : ∀ g, GShape g → ∃ g', runOps g ops = some g' ∧ GShape g' from H _ (gshape_new w h0 hw)
+  induction ops with
+  | nil => intro g hg; exact ⟨g, rfl, hg⟩
+  | cons op rest ih =>
+    intro g hg
+    obtain ⟨g1, h1, hg1⟩ := runOp_shape g op hg (hwf op (by simp))
+    obtain ⟨g2, h2, hg2⟩ := ih (fun o ho => hwf o (by simp [ho])) g1 hg1
+    exact ⟨g2, by simp only [runOps, h1, Option.bind_some, h2], hg2⟩
+
+/-- non-vacuity: a shifted start after unshifted uploads with a gap, a repair and further uploads -/
+example : (runOps (Gen.new 3) [.add "v" ⟨5, 500, 100, false⟩, .add "v" ⟨7, 700, 100, false⟩, .drop 5,
+    .add "a" ⟨7, 700, 100, false⟩, .start 4 true, .add "v" ⟨8, 800, 100, true⟩, .add "a" ⟨8, 800, 100, true⟩]).isSome = true := by
+  decide
 
 end Recv
 
